@@ -10,6 +10,9 @@ package util
 //  * stream "val": random Go values through WriteJSON (gzip accepted or not, several
 //    thresholds); the response must decode to the value (direct oracle, no model), and
 //    the compress/plain decision is compared with the model's compressDecision.
+//  * stream "wr" (zz_verif_c19_writers_test.go): hostile values (escape lookalikes, backslashes,
+//    invalid UTF-8, extreme numbers, structs, raw JSON) through WriteJSON, ErrorResponse and the
+//    composed MarshalIndent+JSONMinify+WriteMaybeCompressed path; direct oracle only.
 
 import (
 	"bytes"
@@ -297,6 +300,9 @@ func TestVerifC19(t *testing.T) {
 			Impl: impl, Desc: "threshold setting " + strconv.Quote(th),
 		})
 	}
+
+	// ---- hostile handler values through every JSON response writer of the package (zz_verif_c19_writers_test.go)
+	c19WriterStream(verifh.Rand(1919), cases, fails, stats)
 
 	// ---- overlapping responses: a client that is slow to take its bytes must still get its own
 	// data while other responses are produced meanwhile (the payload handed to Write must not be
